@@ -85,6 +85,7 @@ type Session struct {
 	conns  map[string]*Client
 	connDB map[string]int
 	port   int
+	host   string // "" = 127.0.0.1
 	// extra per-step observer (e.g. non-interference of bookkeeping), called with the dumps around the step
 	after func(step Step, db int, before, afterDump interface{}) *Violation
 }
@@ -168,7 +169,11 @@ func (s *Session) do(step Step) (resp.Value, []byte, string) {
 	c, ok := s.conns[step.Conn]
 	if !ok {
 		var err error
-		c, err = Dial(s.port)
+		host := s.host
+		if host == "" {
+			host = "127.0.0.1"
+		}
+		c, err = DialHost(host, s.port)
 		if err != nil {
 			return resp.Value{Kind: resp.Error, Str: "DIAL"}, nil, "cannot connect: " + err.Error()
 		}
